@@ -105,6 +105,17 @@ def run(rep: Report, tier: str, seed: int) -> None:
         "two-dot-relative-reexport": ({"ex5/__init__.py": "", "ex5/corex5/__init__.py": "", "ex5/corex5/_implx5.py": "class Enginex5:\n    def gox5(self) -> int:\n        return 1\n\n\ndef helperx5(a: int) -> int:\n    return a\n",
                                        "ex5/apix5/__init__.py": "from ..corex5._implx5 import Enginex5, helperx5\n", "ex5/apix5/modx5.py": "def plainx5() -> int:\n    return 1\n"},
                                       [("class", "Enginex5"), ("fun", "gox5"), ("fun", "helperx5"), ("fun", "plainx5")]),
+        # a sub-package that consists of its __init__.py only (nothing imports it): it re-exports a class of a private module
+        "reexporting-package-without-modules": ({"ex6/__init__.py": "", "ex6/_corex6.py": "class Thingx6:\n    def gox6(self) -> int:\n        return 1\n", "ex6/apix6/__init__.py": "from .._corex6 import Thingx6\n",
+                                                 "ex6/otherx6.py": "def plainx6() -> int:\n    return 1\n"},
+                                                [("class", "Thingx6"), ("fun", "gox6"), ("fun", "plainx6")]),
+        # the package re-exports a class by name; a deeper module with the SAME file name declares a class of the SAME name
+        "same-module-and-class-name-deeper": ({"ex7/__init__.py": "from .ax7 import Foox7\n", "ex7/ax7.py": "class Foox7:\n    def topx7(self) -> int:\n        return 1\n", "ex7/subx7/__init__.py": "",
+                                               "ex7/subx7/ax7.py": "class Foox7:\n    def deepx7(self) -> int:\n        return 1\n"},
+                                              [("fun", "topx7"), ("fun", "deepx7")]),
+        # a module whose FILE NAME ends with '__init__.py' is an ordinary module
+        "module-file-name-ends-with-init": ({"ex8/__init__.py": "", "ex8/my__init__.py": "def initlikex8() -> int:\n    return 1\n\n\nclass InitLikex8:\n    def ilmx8(self) -> int:\n        return 1\n", "ex8/otherx8.py": "def plainx8() -> int:\n    return 1\n"},
+                                            [("fun", "initlikex8"), ("class", "InitLikex8"), ("fun", "ilmx8"), ("fun", "plainx8")]),
         # a name defined twice in one body (the later definition is the one Python keeps): one declaration, emitted once
         "redefinition": ({"ex4/__init__.py": "", "ex4/m.py": "def twicex4(a: int) -> int:\n    return a\n\n\ndef twicex4(a: int, b: int) -> int:  # noqa: F811\n    return a\n\n\nclass Dupx4:\n    def onex4(self) -> int:\n        return 1\n\n\nclass Dupx4:  # noqa: F811\n    def twox4(self) -> int:\n        return 1\n\n\nclass Holderx4:\n    def mdupx4(self) -> int:\n        return 1\n\n    def mdupx4(self, a: int) -> int:  # noqa: F811\n        return a\n\n    adupx4: int = 1\n    adupx4: int = 2\n"},
                          [("fun", "twicex4"), ("class", "Dupx4"), ("fun", "twox4"), ("class", "Holderx4"), ("fun", "mdupx4"), ("attr", "adupx4")]),
